@@ -30,7 +30,7 @@ def Out.bad : Out → Bool
 /-- a `*SchemaRef` as the traffic path sees it -/
 structure SchemaM where
   resolved : Bool       -- `.Value` non-nil here and in every nested reference (RefsResolved, C04 corollary)
-  unguarded : Bool      -- an unguarded reference cycle is reachable from it
+  unguarded : Bool      -- visiting recurses without bound: an unguarded reference cycle (F-C10-1) or an emptiness cycle (F-C10-5) is reachable
   deriving DecidableEq, Repr
 
 /-- what the decoders / the validator answer on the concrete bytes: arbitrary -/
